@@ -71,8 +71,10 @@ pub enum Pending {
     /// (flow and close / end in one burst): the send may get through while the engines are stopping, and its outcome
     /// must then fail like any other outstanding outcome
     BatchableGrantedWithFault,
+    /// like ClosePending, but the application closes with an error of its own (close_with_error)
+    CloseErrPending,
 }
-pub const PENDINGS: [Pending; 13] = [
+pub const PENDINGS: [Pending; 14] = [
     Pending::Idle,
     Pending::SendWaitingCredit,
     Pending::SendAwaitingOutcome,
@@ -86,6 +88,7 @@ pub const PENDINGS: [Pending; 13] = [
     Pending::BatchableOutcomeResuming,
     Pending::IdleWithCredit,
     Pending::BatchableGrantedWithFault,
+    Pending::CloseErrPending,
 ];
 
 #[derive(Debug, Clone, Copy, PartialEq, Eq, Hash)]
@@ -152,11 +155,11 @@ fn pending_affected(pd: Pending, f: Flt) -> bool {
         Pending::SendWaitingCredit | Pending::SendAwaitingOutcome | Pending::BatchableOutcome | Pending::BatchableOutcomeReceived | Pending::DetachPending | Pending::BatchableGrantedWithFault => conn_level(f) || sess_level(f) || s_link(f),
         Pending::RecvWaiting => conn_level(f) || sess_level(f) || r_link(f),
         Pending::AttachPending | Pending::EndPending | Pending::BatchableOutcomeResuming => conn_level(f) || sess_level(f),
-        Pending::ClosePending => conn_level(f),
+        Pending::ClosePending | Pending::CloseErrPending => conn_level(f),
     }
 }
 fn is_teardown(pd: Pending) -> bool {
-    matches!(pd, Pending::DetachPending | Pending::EndPending | Pending::ClosePending)
+    matches!(pd, Pending::DetachPending | Pending::EndPending | Pending::ClosePending | Pending::CloseErrPending)
 }
 
 #[derive(Debug, Clone, Default)]
@@ -327,6 +330,16 @@ pub async fn scenario_b(pd: Pending, flt: Flt) -> BObs {
                 (res, Back::None)
             }))
         }
+        Pending::CloseErrPending => {
+            c.peer.auto.close = false;
+            let mut conn = conn_opt.take().unwrap();
+            Some(tokio::spawn(async move {
+                let e = fe2o3_amqp_types::definitions::Error::new(fe2o3_amqp_types::definitions::AmqpError::InternalError, Some("application error".to_string()), None);
+                let res = op(conn.close_with_error(e)).await;
+                drop(conn);
+                (res, Back::None)
+            }))
+        }
     };
     settle(&mut c.peer, 2).await;
     if pd == Pending::BatchableOutcomeReceived {
@@ -387,7 +400,7 @@ pub async fn scenario_b(pd: Pending, flt: Flt) -> BObs {
             match pd {
                 // a teardown the fault does not concern: the peer now answers it (a peer that never
                 // answers a close is outside the property) and the call has to return
-                Pending::ClosePending => {
+                Pending::ClosePending | Pending::CloseErrPending => {
                     c.peer.send(0, Performative::Close(Close { error: None }));
                     true
                 }
@@ -556,7 +569,7 @@ fn judge_b(pd: Pending, flt: Flt, o: &BObs, panics: &[String]) -> Vec<(String, S
         }
     }
     // ---- the handle of the stopped scope reports the peer's / the transport's error itself (first teardown call on it)
-    let conn_first = if pd == Pending::ClosePending { Some(o.pending_result.clone()) } else { o.followups.iter().find(|(n, _)| n == "connection.close").map(|(_, r)| r.clone()) };
+    let conn_first = if matches!(pd, Pending::ClosePending | Pending::CloseErrPending) { Some(o.pending_result.clone()) } else { o.followups.iter().find(|(n, _)| n == "connection.close").map(|(_, r)| r.clone()) };
     if let Some(r) = conn_first {
         if matches!(flt, Flt::PeerCloseErr | Flt::PeerCloseErrThenReset | Flt::PeerCloseErrThenDrop | Flt::PeerCloseErrThenEofAtOnce) && !r.contains(COND_DBG) {
             f.push((format!("connection-handle-lost-peer-error fault={:?}", flt), format!("{what}: connection.close() reports {r}, the peer closed with resource-limit-exceeded; {}", all())));
@@ -569,7 +582,7 @@ fn judge_b(pd: Pending, flt: Flt, o: &BObs, panics: &[String]) -> Vec<(String, S
     if let Some(r) = sess_first {
         // (not judged when the application was already closing the whole connection: then the session
         // went down with it and "closed" is the truth)
-        if flt == Flt::PeerEndErr && pd != Pending::ClosePending && !r.contains(COND_DBG) {
+        if flt == Flt::PeerEndErr && !matches!(pd, Pending::ClosePending | Pending::CloseErrPending) && !r.contains(COND_DBG) {
             f.push(("session-handle-lost-peer-error".into(), format!("{what}: session.end() reports {r}, the peer ended with resource-limit-exceeded; {}", all())));
         }
     }
